@@ -485,6 +485,54 @@ Proof.
   rewrite push_bytes_upush by assumption. apply chunking.
 Qed.
 
+(* ---- timed delivery: a gap after every chunk, the time-out polled after every gap *)
+Variable wait : Z.
+Hypothesis wait_pos : 0 < wait.
+
+Lemma timed_run_chunks : forall steps now ts,
+  (forall c gap, In (c, gap) steps -> 0 <= gap < wait) ->
+  (length (i_buf (t_in ts)) < cap)%nat ->
+  match push_chunks tok cap (t_in ts) (map fst steps) with
+  | Some (evs, s') => exists ms d, timed_run tok cap wait false now ts steps = Some (evs, ms, mkT s' d)
+  | None => timed_run tok cap wait false now ts steps = None
+  end.
+Proof.
+  induction steps as [|[c gap] r IH]; intros now ts Hg Hb.
+  - cbn [map push_chunks timed_run]. exists [], (t_deadline ts). destruct ts; reflexivity.
+  - cbn [map fst push_chunks timed_run]. unfold tpush.
+    destruct (push_bytes tok cap (t_in ts) c) as [[evs s1]|] eqn:Ep; [|reflexivity].
+    assert (Hgap : 0 <= gap < wait) by (apply (Hg c gap); left; reflexivity).
+    assert (Hb1 : (length (i_buf s1) < cap)%nat).
+    { rewrite push_bytes_upush in Ep by exact Hb. eapply upush_residue. exact Ep. }
+    set (d1 := if i_armed s1 then Some (now + wait) else None).
+    assert (Hpoll : exists m, tpoll (now + gap) (mkT s1 d1) = Some m).
+    { unfold tpoll, d1. cbn [t_deadline]. destruct (i_armed s1); [|eexists; reflexivity].
+      assert (E : (now + gap <? now + wait) = true) by (apply Z.ltb_lt; lia). rewrite E. eexists; reflexivity. }
+    destruct Hpoll as [m Hm]. rewrite Hm.
+    specialize (IH (now + gap) (mkT s1 d1)). cbn [t_in] in IH.
+    assert (Hg' : forall c0 gap0, In (c0, gap0) r -> 0 <= gap0 < wait) by (intros c0 g0 Hin; apply (Hg c0 g0); right; exact Hin).
+    specialize (IH Hg' Hb1).
+    destruct (push_chunks tok cap s1 (map fst r)) as [[evs2 s2]|].
+    + destruct IH as [ms [d E]]. rewrite E. exists (m :: ms), d. reflexivity.
+    + rewrite IH. reflexivity.
+Qed.
+
+(* C20_timed_chunking: as long as every gap between fragments stays below the wait time -- however
+   long the fragments take together -- no time-out is forced and the events are those of the
+   whole stream pushed at once *)
+Theorem timed_chunking : forall steps c g now ts,
+  (forall c0 gap, In (c0, gap) ((c, g) :: steps) -> 0 <= gap < wait) ->
+  (length (i_buf (t_in ts)) < cap)%nat ->
+  match push_bytes tok cap (t_in ts) (concat (map fst ((c, g) :: steps))) with
+  | Some (evs, s') => exists ms d, timed_run tok cap wait false now ts ((c, g) :: steps) = Some (evs, ms, mkT s' d)
+  | None => timed_run tok cap wait false now ts ((c, g) :: steps) = None
+  end.
+Proof.
+  intros steps c g now ts Hg Hb.
+  pose proof (timed_run_chunks ((c, g) :: steps) now ts Hg Hb) as H.
+  cbn [map fst] in *. rewrite (chunking_bounded (map fst steps) c (t_in ts) Hb) in H. exact H.
+Qed.
+
 End Chunking.
 
 (* every event of a mouse key carries the key's position minus one *)
@@ -584,3 +632,19 @@ Proof.
   - reflexivity.
   - vm_compute. reflexivity.
 Qed.
+
+(* the seeded variant that keeps a running deadline: three fragments 30 ms apart (wait 50 ms)
+   force a time-out although no gap reaches the wait time *)
+Definition esc_tok (b : list Z) : tokres :=
+  match b with
+  | [] => TNone
+  | 27 :: _ :: _ :: _ => TKey (mkKey TKeysym 0 [] [85; 112] 0 0 0 0) 3
+  | 27 :: _ => TAgain
+  | x :: _ => TKey (mkKey TUnicode 0 [x] [x] 0 0 0 0) 1
+  end.
+
+Lemma stale_deadline_refuted :
+  timed_run esc_tok 256 50000 true 0 tst0 [([27], 30000); ([91], 30000); ([65], 0)] = None /\
+  timed_run esc_tok 256 50000 false 0 tst0 [([27], 30000); ([91], 30000); ([65], 0)] =
+    Some ([EvKey KEYEV_KEY 0 [85; 112]], [20; 20; -1], mkT (mkI [] 0 false) None).
+Proof. split; vm_compute; reflexivity. Qed.
